@@ -50,6 +50,12 @@ def gen(run_seed: int, tier: str) -> dict:
     nfiles = 5 + t.draw(8, "nfiles")
     world = cpool.gen_world(t, nfiles)
     world2 = _gen_world2(t)
+    if t.chance(1, 3, "nested_ignore"):
+        # an ignore file that is NOT at the project root: it must have no effect, whichever file is linted first
+        dirs0 = sorted({f.rsplit("/", 1)[0] for f in world["files"] if "/" in f})
+        if dirs0:
+            pats = t.sample(["*.py", "*.ts", "*.js", "helpers*", "utils*", "index*", "*_f1*", "*_f2*", "*_f3*"], 1 + t.draw(3, "npat"), "pats")
+            world.setdefault("extra", {})[t.pick(dirs0, "ign_dir") + "/.thailintignore"] = "\n".join(pats) + "\n"
     files = dict(world["files"])            # generation-time model of the tree
     ndup, nstr = 3, 3
     ops = [{"op": "new", "obj": "L0", "root": "proj"}]
@@ -124,16 +130,29 @@ def gen(run_seed: int, tier: str) -> dict:
             fs = sorted(files)
             if ev == "directive":
                 # flip suppression directives in place, keeping everything else where it is
-                with_dir = [f for f in fs if "dry: ignore" in files[f] or "thailint: ignore-start" in files[f]]
-                plain = [f for f in fs if f.endswith(".py") and "\ndef dup_" in files[f] and f not in with_dir]
+                with_dir = [f for f in fs if "dry: ignore" in files[f] or "thailint: ignore" in files[f]]
+                plain = [f for f in fs if f.endswith(".py") and ("\ndef dup_" in files[f] or "    if mode in (" in files[f]) and f not in with_dir]
                 if with_dir and (not plain or t.chance(2, 3, "strip")):
                     rel = t.pick(with_dir, "rel")
-                    keep = [ln for ln in files[rel].split("\n") if "dry: ignore" not in ln and "thailint: ignore-" not in ln]
+                    keep = []
+                    for ln in files[rel].split("\n"):
+                        code = ln.split("# thailint: ignore")[0].split("// thailint: ignore")[0]
+                        if "dry: ignore" in ln or (("thailint: ignore" in ln) and not code.strip()):
+                            if t.chance(1, 2, "keep_line_numbers"):
+                                keep.append("")          # blank the directive line: nothing moves
+                            continue
+                        keep.append(code.rstrip() if "thailint: ignore" in ln else ln)
                     files[rel] = "\n".join(keep)
                     ops.append({"op": "edit", "rel": rel, "content": files[rel], "why": "strip-directives"})
                 elif plain:
                     rel = t.pick(plain, "rel")
-                    files[rel] = files[rel].replace("\ndef dup_", "\n# dry: ignore-block\ndef dup_", 1)
+                    if "    if mode in (" in files[rel] and t.chance(1, 2, "which_dir"):
+                        lines = files[rel].split("\n")
+                        i = next(j for j, ln in enumerate(lines) if ln.startswith("    if mode in ("))
+                        lines[i] += "  # thailint: ignore[stringly-typed]"
+                        files[rel] = "\n".join(lines)
+                    else:
+                        files[rel] = files[rel].replace("\ndef dup_", "\n# dry: ignore-block\ndef dup_", 1)
                     ops.append({"op": "edit", "rel": rel, "content": files[rel], "why": "add-directive"})
             elif ev == "edit":
                 rel = t.pick(fs, "rel")
